@@ -113,7 +113,63 @@ def prog_random_uniform(rnd):
     return [rnd.randrange(65536) for _ in range(rnd.randrange(1, 30))]
 
 
-TEMPLATES = [prog_counted_loop, prog_back_edge_to_origin, prog_nested_jsr, prog_call_rets, prog_recursive_call,
+def prog_flag_boundary(rnd):
+    """A flag-setting instruction (LD, LDI, LDR, ADD, AND, NOT) whose result is a boundary value (x8000, x7FFF, xFFFF, 0, 1,
+    x8001), observed at once by REG and by BRn / BRz / BRp."""
+    v = rnd.choice([0x8000, 0x8000, 0x7FFF, 0xFFFF, 0x0000, 0x0001, 0x8001])
+    how = rnd.choice(["ld", "ldi", "ldr", "add", "and", "not"])
+    # layout: [0..k) producer, then: REG, BRn +3, BRz +4, BRp +5, HALT, (N:) LD r0 cN; OUT; HALT ... ; data
+    if how == "ld":
+        prod = [("LD3", "d0")]
+        data = [v]
+    elif how == "ldi":
+        prod = [("LDI3", "d1")]
+        data = [v, None]            # d1 holds the address of d0
+    elif how == "ldr":
+        prod = [("LEA4", "d0"), LDR(3, 4, 0)]
+        data = [v]
+    elif how == "add":
+        b = rnd.choice([0x4000, 1, 0x7FFF, 0xFFFF])
+        prod = [("LD1", "d0"), ("LD2", "d1"), ADD(3, 1, 2)]
+        data = [(v - b) & 0xFFFF, b]
+    elif how == "and":
+        prod = [("LD1", "d0"), ("LD2", "d1"), AND(3, 1, 2)]
+        data = [v | 0x0F0, v | 0x7000 if v & 0x8000 == 0 else v | 0x0700]
+        data[1] = (~(data[0] & ~v)) & 0xFFFF if True else data[1]     # data0 & data1 == v
+    else:
+        prod = [("LD1", "d0"), NOT(3, 1)]
+        data = [(~v) & 0xFFFF]
+    tail = ["REG", ("BRn", "N"), ("BRz", "Z"), ("BRp", "P"), HALT,
+            "N:", ("LD0", "cN"), OUT, HALT, "Z:", ("LD0", "cZ"), OUT, HALT, "P:", ("LD0", "cP"), OUT, HALT,
+            "cN:", 0x4E, "cZ:", 0x5A, "cP:", 0x50]
+    items = prod + tail + ["d0:", data[0]] + (["d1:", data[1]] if len(data) > 1 else [])
+    # resolve
+    pos, labels = 0, {}
+    for it in items:
+        if isinstance(it, str) and it.endswith(":"):
+            labels[it[:-1]] = pos
+        else:
+            pos += 1
+    out, pos = [], 0
+    for it in items:
+        if isinstance(it, str) and it.endswith(":"):
+            continue
+        if it == "REG":
+            w = 0xF027
+        elif isinstance(it, tuple):
+            op, lab = it
+            off = labels[lab] - (pos + 1)
+            w = {"LD3": LD(3, off), "LDI3": LDI(3, off), "LEA4": LEA(4, off), "LD1": LD(1, off), "LD2": LD(2, off),
+                 "LD0": LD(0, off), "BRn": BR(4, off), "BRz": BR(2, off), "BRp": BR(1, off)}[op]
+        elif it is None:
+            w = ("ADDR", labels["d0"])      # resolved against the origin by gen_cases
+        else:
+            w = it
+        out.append(w); pos += 1
+    return out
+
+
+TEMPLATES = [prog_flag_boundary, prog_counted_loop, prog_back_edge_to_origin, prog_nested_jsr, prog_call_rets, prog_recursive_call,
              prog_selfmod, prog_no_halt, prog_jump, prog_strings, prog_string_wrap, prog_input,
              prog_stack_words, prog_unknown_trap, prog_rti, prog_random_weighted, prog_random_weighted,
              prog_random_weighted, prog_random_uniform]
@@ -159,6 +215,7 @@ def gen_cases(tier, seed):
         if rnd.random() < 0.03:
             origin = 0x10000 - len(body) - rnd.choice([0, 1, 2])       # loader boundary
             origin = max(0, min(0xFFFF, origin))
+        body = [((origin + w[1]) & 0xFFFF) if isinstance(w, tuple) else w for w in body]
         feat = rnd.randrange(2)
         if t in (prog_call_rets, prog_recursive_call) and rnd.random() < 0.8:
             feat = 1
